@@ -39,6 +39,7 @@ Tagged(p, o, e, post, rec) ==
   \cup (IF rec.o.pending # (IF post.retry THEN 1 ELSE 0) + (IF post.ccall THEN 1 ELSE 0) + (IF post.looper THEN 1 ELSE 0)
            THEN {IF post.startD = "none" THEN "C13.timers_after_stop" ELSE "C14.timers"} ELSE {})
   \cup (IF rec.o.overlap THEN {"C02.no_overlap"} ELSE {})
+  \cup (IF rec.o.bad THEN {"C02.content"} ELSE {})      \* (full-stack runs: key, value, offset differ from the stored message)
 
 Clauses ==
     << <<"C02.order", C02_order>>, <<"C02.no_gap", C02_no_gap>>, <<"C03.behind", C03_behind>>,
